@@ -1,14 +1,23 @@
 #!/bin/bash
 # Runs all 19 quick checks against every property-preserving variant in selftest/benign/ (scratch copies).
-# Every line of the result must say exit=0.   usage: run_benign.sh [lanes]
+# Every line of the result must say exit=0.   usage: [BENIGN_GLOB='benign/a*.diff'] run_benign.sh [lanes]
+# With BENIGN_GLOB set, only those variants are run and their lines are merged into benign/results.txt.
 cd "$(dirname "$0")"
 ALL="C01 C02 C03 C04 C05 C06 C07 C08 C09 C10 C11 C12 C13 C14 C15 C16 C17 C18 C19"
-LANES="${1:-2}"; i=0
-for f in benign/*.diff; do lane=$((i % LANES)); i=$((i+1)); echo "$f" >> /tmp/vben.lane.$lane; done
+LANES="${1:-2}"; i=0; T="$(mktemp -d /tmp/vben.XXXXXX)"
+for f in ${BENIGN_GLOB:-benign/*.diff}; do lane=$((i % LANES)); i=$((i+1)); echo "$f" >> $T/lane.$lane; done
 for lane in $(seq 0 $((LANES-1))); do
-  ( while read -r f; do VMUT_TARGET_DIR=/tmp/vben-target-$lane ./run_mutant.sh "$f" quick $ALL; done < /tmp/vben.lane.$lane > /tmp/vben.out.$lane 2>&1; rm -rf /tmp/vben-target-$lane ) &
+  ( while read -r f; do VMUT_TARGET_DIR=$T/target-$lane ./run_mutant.sh "$f" quick $ALL; done < $T/lane.$lane > $T/out.$lane 2>&1; rm -rf $T/target-$lane ) &
 done
 wait
-cat /tmp/vben.out.* | awk '{print $1,$2,$3,$4}' | sort > benign/results.txt
-rm -f /tmp/vben.lane.* /tmp/vben.out.*
+cat $T/out.* > benign/last_run_full.log
+if [ -n "${BENIGN_GLOB:-}" ] && [ -f benign/results.txt ]; then
+  cat $T/out.* | awk '{print $1,$2,$3,$4}' > $T/new
+  awk '{print $1}' $T/new | sort -u > $T/names
+  grep -v -F -f $T/names benign/results.txt > $T/old
+  cat $T/old $T/new | sort > benign/results.txt; rm -f $T/new $T/names $T/old
+else
+  cat $T/out.* | awk '{print $1,$2,$3,$4}' | sort > benign/results.txt
+fi
+rm -rf "$T"
 grep -vc "exit=0" benign/results.txt
